@@ -681,13 +681,8 @@ class VMF:
         self.entities.append(item)
         self.by_class[item['classname', ''].casefold()].add(item)
         self.by_target[item['targetname', ''].casefold() or None].add(item)
-        if 'nodeid' in item:
-            try:
-                node_id = int(item['nodeid'])
-            except (TypeError, ValueError):
-                pass
-            else:
-                item['nodeid'] = str(self.node_id.get_id(node_id))
+        # Node IDs are acquired when the keyvalue is set, and held until it is changed or the
+        # entity is destroyed - so there's nothing to do here.
 
     def remove_ent(self, item: 'Entity') -> None:
         """Remove an entity from the map.
@@ -704,15 +699,9 @@ class VMF:
 
         _remove_copyset(self.by_class, item['classname'].casefold(), item)
         _remove_copyset(self.by_target, item['targetname'].casefold() or None, item)
-        if 'nodeid' in item:
-            try:
-                node_id = int(item['nodeid'])
-            except (TypeError, ValueError):
-                pass
-            else:
-                self.node_id.discard(node_id)
-
-        self.ent_id.discard(item.id)
+        # The entity keeps its ID and node ID: it still exists and may be added back, so
+        # handing them to another entity would produce duplicates. They are released
+        # when the entity object is destroyed.
 
     def add_brushes(self, brushes: Iterable['Solid']) -> None:
         """Add multiple brushes to the map."""
@@ -725,13 +714,6 @@ class VMF:
         for item in ents:
             self.by_class[item['classname'].casefold()].add(item)
             self.by_target[item['targetname', ''].casefold() or None].add(item)
-            if 'nodeid' in item:
-                try:
-                    node_id = int(item['nodeid'])
-                except (TypeError, ValueError):
-                    pass
-                else:
-                    item['nodeid'] = str(self.node_id.get_id(node_id))
 
     def create_ent(self, classname: str, **kargs: ValidKVs) -> 'Entity':
         """Convenience method to allow creating point entities.
@@ -3112,6 +3094,12 @@ class Entity(MutableMapping[str, str]):
     def __del__(self) -> None:
         """Forget this entity's ID when the object is destroyed."""
         self.map.ent_id.discard(self.id)
+        try:
+            node_id = int(self['nodeid'])
+        except (TypeError, ValueError):
+            pass
+        else:
+            self.map.node_id.discard(node_id)
 
     def get_bbox(self) -> tuple[Vec, Vec]:
         """Get two vectors representing the space this entity takes up."""
